@@ -62,6 +62,12 @@ func Lib() *ty.Env {
 	ue2 := add("UE2", "", ty.St(f("A", b("int")), f("B", b("string"))), false) // 32
 	e.Decls[ue2].Methods = "Ev.Cv"
 	add("UW", "", ty.St(f("P", ty.P(ty.N(31))), f("V", ty.N(31)), f("Q", ty.P(ty.N(32))), f("W", ty.N(32)), f("L", ty.Sl(ty.N(31))), f("M", ty.M(b("string"), ty.N(32))), f("R", ty.Ar(2, ty.N(32)))), false) // 33
+	// external structs with blank fields in front of and between unexported fields: generated code must
+	// skip them and still reach every other field (XB is not comparable, XC is and can be a map key)
+	xb := add("XB", "ext", ty.St(f("a", b("int")), f("b", ty.Sl(b("string"))), f("c", ty.P(b("int"))), f("D", b("string")), f("e", b("int"))), true) // 34
+	e.Decls[xb].Under.Blanks = map[int]string{0: "[0]func()", 2: "int32", 5: "struct{}"}
+	xc := add("XC", "ext", ty.St(f("a", b("string")), f("b", b("int8")), f("C", b("int8"))), true) // 35
+	e.Decls[xc].Under.Blanks = map[int]string{0: "int32", 1: "bool"}
 	return e
 }
 
@@ -98,7 +104,7 @@ func leaves(env *ty.Env, thorough bool) []*ty.Ty {
 }
 
 func keyTypes() []*ty.Ty {
-	return []*ty.Ty{ty.B("bool"), ty.B("int8"), ty.B("uint64"), ty.B("float64"), ty.B("complex128"), ty.B("string"), ty.N(0), ty.N(1), ty.N(5), ty.Ar(2, ty.B("int")), ty.N(15), ty.N(21),
+	return []*ty.Ty{ty.B("bool"), ty.B("int8"), ty.B("uint64"), ty.B("float64"), ty.B("complex128"), ty.B("string"), ty.N(0), ty.N(1), ty.N(5), ty.Ar(2, ty.B("int")), ty.N(15), ty.N(21), ty.N(35),
 		ty.St(ty.F("A", ty.B("int")), ty.F("B", ty.B("string")))}
 }
 
